@@ -436,3 +436,20 @@ def _coslat():
             "/-- the clip bounds applied to cos(lat) before the square root -/\n"
             "def coslatClipBounds : Int × Int := (0, 1)\n"
             "def coslatWeightIsSqrtOfClippedCos : Bool := true\n")
+
+
+# ------------------------------------------------------------------------------------------------- Pearson correlation (patterns)
+@target("pearsonFormula", "Formulas", ["C09"])
+def _pearson():
+    path, qual = "utils/optional/statistics.py", "pearson_correlation"
+    src, tree = load(path)
+    fn = find_func(tree, qual)
+    inner = [n for n in ast.walk(fn) if isinstance(n, ast.FunctionDef) and n.name == "_correlation_coefficients_numpy"]
+    if len(inner) != 1:
+        raise TranslationError("correlation kernel not found")
+    body = [ast.unparse(s) for s in inner[0].body if not (isinstance(s, ast.Expr) and isinstance(s.value, ast.Constant))]
+    if body != ["X = X / X.std(0)", "Y = Y / Y.std(0)", "return X.conj().T @ Y / X.shape[0]"]:
+        raise TranslationError("correlation kernel is not (X/std0)^H (Y/std0) / n with ddof-0 deviations: " + str(body))
+    return (f"/-- {header(path, qual, src, fn)}: both series divided by their population (ddof 0) deviation, products averaged over `n` -/\n"
+            "def pearsonStdDdof : Nat := 0\n"
+            "def pearsonDenominator {R : Type} [Num R] (n : R) : R := n\n")
